@@ -21,6 +21,8 @@ import (
 )
 
 type LoopSpec struct {
+	UseText  []string
+	Uses     []*ssa.Function
 	Unroll   int
 	InvText  []string
 	Locals   []string // names, in the order of the generated closure parameters
@@ -49,6 +51,11 @@ type Contract struct {
 	Nilable     bool
 	NoAlloc     bool
 	AllocText   string
+	Opaque      bool
+	Harness     bool
+	Inlines     []string
+	Bounded     string // description of the input-domain bound of a bounded harness
+	UnrollTo    int
 	UseText     []string
 	DecrText    string
 	Uses        []*ssa.Function
@@ -65,7 +72,7 @@ type Contract struct {
 }
 
 var clauseKW = map[string]bool{"func": true, "requires": true, "ensures": true, "modifies": true, "loop": true,
-	"trusted": true, "inline": true, "nilable": true, "noalloc": true, "alloc-bounded": true, "use": true, "decreases": true}
+	"trusted": true, "inline": true, "nilable": true, "noalloc": true, "alloc-bounded": true, "use": true, "decreases": true, "opaque": true, "harness": true, "inlines": true, "bounded": true}
 
 // parseContractFile extracts the contracts of one file.
 func parseContractFile(path string, src []byte) ([]*Contract, string, error) {
@@ -139,6 +146,23 @@ func parseContractFile(path string, src []byte) ([]*Contract, string, error) {
 			cur.Nilable = true
 		case "noalloc":
 			cur.NoAlloc = true
+		case "opaque":
+			cur.Opaque = true
+		case "harness":
+			cur.Harness = true
+		case "inlines":
+			for _, n := range strings.Split(text, ",") {
+				cur.Inlines = append(cur.Inlines, strings.TrimSpace(n))
+			}
+		case "bounded":
+			// bounded <unroll> <description>
+			f := strings.SplitN(text, " ", 2)
+			n, err := strconv.Atoi(f[0])
+			if err != nil || len(f) < 2 {
+				return nil, "", fmt.Errorf("%s:%d: bounded <unroll> <description>", path, itemLine[k])
+			}
+			cur.UnrollTo = n
+			cur.Bounded = f[1]
 		case "use":
 			cur.UseText = append(cur.UseText, text)
 		case "decreases":
@@ -176,13 +200,15 @@ func parseContractFile(path string, src []byte) ([]*Contract, string, error) {
 				}
 			case "invariant":
 				ls.InvText = append(ls.InvText, rest)
+			case "use":
+				ls.UseText = append(ls.UseText, rest)
 			}
 		}
 	}
 	return out, pkg, nil
 }
 
-var loopRe = regexp.MustCompile(`^(\d+)\s*:\s*(unroll|locals|invariant)\s*(.*)$`)
+var loopRe = regexp.MustCompile(`^(\d+)\s*:\s*(unroll|locals|invariant|use)\s*(.*)$`)
 
 // splitTop splits on commas that are not nested in brackets.
 func splitTop(s string) []string {
@@ -484,6 +510,16 @@ func genContractCode(c *Contract) (string, error) {
 				return "", err
 			}
 		}
+		for k, t := range ls.UseText {
+			all := c.Params
+			if len(lp) > 0 {
+				if all != "" {
+					all += ", "
+				}
+				all += strings.Join(lp, ", ")
+			}
+			fmt.Fprintf(&sb, "func %s_loop%d_use%d(%s) {\n\t%s\n}\n", m, ord, k, all, t)
+		}
 	}
 	return sb.String(), nil
 }
@@ -525,6 +561,9 @@ func bindContract(c *Contract, pkg *ssa.Package) error {
 				return fmt.Errorf("missing generated invariant function")
 			}
 			ls.Invs = append(ls.Invs, f)
+		}
+		for k := range ls.UseText {
+			ls.Uses = append(ls.Uses, pkg.Func(fmt.Sprintf("%s_loop%d_use%d", m, ord, k)))
 		}
 		c.Loops[ord] = ls
 	}
